@@ -728,6 +728,7 @@ class TextXMetaModel(DebugPrinter):
             raise TextXError("textX accepts only strings.")
 
         if file_name is None:
+            known_models = self._models_in_global_repository()
 
             def kwargs_callback(other_model):
                 if hasattr(other_model, "_tx_metamodel"):
@@ -739,8 +740,7 @@ class TextXMetaModel(DebugPrinter):
                 model_str, debug=debug, pre_ref_resolution_callback=kwargs_callback
             )
 
-            for p in self._model_processors:
-                p(model, self)
+            self._call_model_processors(model, known_models)
         else:
             model = self.internal_model_from_file(
                 file_name,
@@ -780,6 +780,8 @@ class TextXMetaModel(DebugPrinter):
         file_name = abspath(file_name)
         model = None
         callback = pre_ref_resolution_callback
+        # Models of imported files are cleaned up by the main model load.
+        known_models = self._models_in_global_repository() if is_main_model else None
 
         if hasattr(self, "_tx_model_repository"):
             # metamodel has a global repo
@@ -821,10 +823,35 @@ class TextXMetaModel(DebugPrinter):
                 is_main_model=is_main_model,
             )
 
-        for p in self._model_processors:
-            p(model, self)
+        self._call_model_processors(model, known_models)
 
         return model
+
+    def _models_in_global_repository(self):
+        """
+        Returns ids of the models currently held by the global repository or
+        None if this meta-model has no global repository.
+        """
+        if hasattr(self, "_tx_model_repository"):
+            return {id(m) for m in self._tx_model_repository.all_models}
+        return None
+
+    def _call_model_processors(self, model, known_models):
+        """
+        Calls model processors. If a processor fails the load has failed:
+        the models this load added to the global repository (all but
+        `known_models`) are removed from it, as for any other loading error.
+        """
+        try:
+            for p in self._model_processors:
+                p(model, self)
+        except:  # noqa
+            if known_models is not None:
+                repo = self._tx_model_repository
+                repo.remove_models(
+                    [m for m in list(repo.all_models) if id(m) not in known_models]
+                )
+            raise
 
     def register_model_processor(self, model_processor):
         """
